@@ -2160,7 +2160,7 @@ class FileHashStore(HashStore):
 
         :return: De-duplicated list of hash algorithms.
         """
-        algorithm_list_to_calculate = self.default_algo_list
+        algorithm_list_to_calculate = list(self.default_algo_list)
         if checksum_algorithm is not None:
             self._clean_algorithm(checksum_algorithm)
             if checksum_algorithm in self.other_algo_list:
